@@ -1127,6 +1127,22 @@ func (r *Run) doDrop(cl *clientState, d *dropRec, f func() error) {
 			return
 		}
 	}
+	it.Close()
+	// ... and every other key is unchanged: read all keys of the case through the
+	// ordinary snapshot-read oracle (keys under a dropped prefix are skipped there)
+	if !d.all && !r.c.Cfg.Managed {
+		txn2 := r.db.NewTransaction(false)
+		defer txn2.Discard()
+		cl2 := &clientState{id: -3}
+		cl2.slots[0] = &txnState{txn: txn2, readTs: txn2.ReadTs(), pending: map[string]WriteRec{}, reads: map[string]bool{}}
+		for i := range r.c.Keys {
+			r.opGet(cl2, 0, &Op{K: "get", Key: i})
+			if r.viol != nil {
+				return
+			}
+		}
+		r.probe("post_drop_survivor_reads")
+	}
 }
 
 func opFlatten(r *Run, cl *clientState, idx int, op *Op) {
